@@ -183,12 +183,21 @@ class Probe(SourceProxy):
     def __exit__(self, exc_type=None, exc=None, tb=None):
         if self._root is not self:
             return self._root.__exit__(exc_type, exc, tb)
+        # Completing the stream can raise (e.g. min() of an empty stream).
+        # Every observer must still be completed, and the probe must be
+        # uninstalled regardless; the first error is raised at the end.
+        errors = []
         try:
-            return super().__exit__(exc_type, exc, tb)
+            for obs in list(self._observers):
+                try:
+                    obs.on_completed()
+                except Exception as e:
+                    errors.append(e)
+            self._observers.clear()
         finally:
-            # Completing the stream can raise (e.g. min() of an empty
-            # stream). The probe must be uninstalled regardless.
             self._exit()
+        if errors:
+            raise errors[0]
 
     def activate(self):
         """Activate this probe."""
